@@ -957,6 +957,7 @@ pub fn parts() -> Vec<Box<dyn PartDyn>> {
             shrink_budget: 300,
             confirm_runs: 2,
             fuzz: None,
+            watchdog_s: 60,
         }),
         Box::new(Part::<ProbeCase> {
             name: "collector",
@@ -969,6 +970,7 @@ pub fn parts() -> Vec<Box<dyn PartDyn>> {
             shrink_budget: 2000,
             confirm_runs: 1,
             fuzz: Some(crate::collector::fuzz_probe),
+            watchdog_s: 0,
         }),
     ]
 }
